@@ -51,7 +51,8 @@ type Case struct {
 	Variant    int             `json:"variant"`
 	Sched      []string        `json:"sched"`
 	Cut        int             `json:"cut"`
-	Slow       []int64         `json:"slow"` // jitter mode: [class byte ('r','w','s' or 0), worker index, microseconds]
+	Procs      []int           `json:"procs"` // kind "big": decoder counts to compare
+	Slow       []int64         `json:"slow"`  // jitter mode: [class byte ('r','w','s' or 0), worker index, microseconds]
 	Weights    map[string]int  `json:"weights"`
 	Wit        []WitStep       `json:"wit"`      // kind "witness": steps of a TLC counterexample of a deviating Model
 	Attempts   int             `json:"attempts"` // how often to try to follow it (select outcomes are random) // schedule bias of random walks: weight per goroutine class r|w|s|c
@@ -661,6 +662,46 @@ func runPlain(c Case) M {
 	}
 }
 
+// kind "big": real-size blocks (thousands of elements).  The file is scanned with every decoder count of the case; per count the
+// recorder reports how many objects came out, an order-sensitive digest of (id, lat, lon, version) and the ids at a few probe
+// positions.  The Judge compares every count with the single-decoder scan and with the number of objects the file holds.
+func runBig(c Case) M {
+	fi := pbfmini.Build(c.Cfg.Cfg, c.Variant)
+	scans := []M{}
+	for _, n := range c.Procs {
+		s := osmpbf.New(context.Background(), bytes.NewReader(fi.Data), n)
+		if c.Variant%3 == 1 {
+			s.FilterNode = func(*osm.Node) bool { return true } // an installed filter that accepts everything changes nothing
+		}
+		h := fnv.New64a()
+		count := 0
+		probes := []int64{}
+		var kept []*osm.Node
+		for s.Scan() {
+			nd, ok := s.Object().(*osm.Node)
+			if !ok {
+				continue
+			}
+			fmt.Fprintf(h, "%d|%.7f|%.7f|%d;", nd.ID, nd.Lat, nd.Lon, nd.Version)
+			if count%4099 == 0 {
+				probes = append(probes, int64(nd.ID)-fi.FirstID[0])
+				kept = append(kept, nd)
+			}
+			count++
+		}
+		stable := true
+		for i, nd := range kept { // retained objects are still what they were
+			if int64(nd.ID)-fi.FirstID[0] != probes[i] {
+				stable = false
+			}
+		}
+		scans = append(scans, M{"n": n, "count": count, "digest": fmt.Sprintf("%x", h.Sum64()), "probes": probes, "err": errClass(s.Err()), "stable": stable})
+		s.Close()
+	}
+	return M{"case": c.Raw, "big": M{"blocks": c.Cfg.Blocks, "scans": scans}, "trace": []M{}, "sched": []string{}, "diverged": "",
+		"run": M{"cfg": M{"n": 1, "blocks": []pbfmini.Block{}, "endkind": "eof", "hdr": "ok"}, "H": []M{}, "reads": 0, "rem": 0, "outcome": "ok", "resume": []M{}}}
+}
+
 func nonNil(b []pbfmini.Block) []pbfmini.Block {
 	if b == nil {
 		return []pbfmini.Block{}
@@ -682,6 +723,14 @@ func main() {
 		vio.Must(json.Unmarshal(line, &c), "case")
 		c.Raw = line
 		var rec M
+		if c.Kind == "big" {
+			rec = runBig(c)
+			b, _ := json.Marshal(rec)
+			out.Write(b)
+			out.WriteByte('\n')
+			out.Flush()
+			continue
+		}
 		if c.Kind == "len" {
 			fi := pbfmini.Build(c.Cfg.Cfg, c.Variant)
 			rec = M{"len": len(fi.Data)}
